@@ -46,6 +46,16 @@ CHECKS = {
              "before the edit and at the moved cursor after it; TLC applies the edit to its own text model (must equal the real new buffer) and checks every "
              "reported position against Text!ShiftPos; payloads must be equal beyond positions.",
         ref="DESIGN.md 5/C18", technique="TLA+ text-moving edit (InsertLinesAt/ShiftPos) + TLC trace validation of before/after observations"),
+    "C07": dict(
+        text="Exhaustive TLC run over the MC_Body universe (block schemas x labels x bodies x cursors) checking, on the model, CandOK(CandM) (mechanism => property), "
+             "AcceptSafe, UnknownQuiet, NoDupOffer and a sensitivity config (the repaired prefix defect must be rejected); every state is printed as a JSON case, built as a real "
+             "schema, rendered in several layouts and run through the real CompletionAtPos / ValidateFile; TraceBody.tla recomputes CandP / LabelCandP from the abstract case and "
+             "compares (set equality, strict sortedness, accept-safety measured on the real validator). Seeded random cases beyond the bounds go through the same trace spec.",
+        ref="DESIGN.md 5/C07", technique="TLC exhaustive model checking of BodyRules.tla (MC_Body) + replay of TLC-generated cases into the real code + TLC trace validation (TraceBody)"),
+    "C15": dict(
+        text="Same MC_Body universe and random cases as C07: the real ValidateFile/Validate diagnostics are projected to (kind, item path) by subject containment and compared by "
+             "TraceBody.tla, as sets without duplicates, with Diags(schema, doc) recomputed by TLC (walker semantics: unknown flag, found/dynamic counters, label checks, deprecations).",
+        ref="DESIGN.md 5/C15", technique="TLC model checking of BodyRules.tla + replay of TLC-generated cases + TLC trace validation of real diagnostics (TraceBody)"),
 }
 
 NOT_YET = {
